@@ -6,8 +6,10 @@
 -/
 import Driver.Codec
 import Mistletoe.Props.C14
+import Mistletoe.Props.C14_Wide
 import Mistletoe.Props.C03
 import Mistletoe.Props.C09
+import Mistletoe.Props.C09_Code
 import Mistletoe.Props.C19
 import Mistletoe.Props.C10_Reflow
 import Mistletoe.Props.C06
@@ -24,6 +26,8 @@ def c14Hyps (j : Json) : Except String Json := do
   let body := Mistletoe.InertInline.inertBody (Document.joinNl (lines.map Py.strip))
   pure (Json.mkObj [("nonEmpty", Json.bool (!lines.isEmpty)), ("oneLine", Json.bool oneLine), ("inertLine", Json.bool inertLines),
                     ("proseLine", Json.bool prose), ("inertBody", Json.bool body),
+                    ("inertBody2", Json.bool (Mistletoe.InertInline2.inertBody2 (Document.joinNl (lines.map Py.strip)))),
+                    ("inertBody3", Json.bool (Mistletoe.InertInline2.inertBody3 (Document.joinNl (lines.map Py.strip)))),
                     ("text", Driver.str (Document.joinNl (lines.map Py.strip)))])
 
 /-- a tree of the C03 fragment from JSON: {"k":"para","lines":[…]} | {"k":"heading","level":n,"text":…,"line":…}
@@ -125,11 +129,34 @@ def c12Shape (j : Json) : Except String Json := do
   let d ← Driver.Ast.docOf (← j.getObjVal? "doc")
   pure (Json.mkObj [("shapeOk", Json.bool d.shapeOk)])
 
+/-- a block of the extended C09 fragment: the three kinds of `blkOf` plus {"k":"fence","delim":…,"info":…,"body":[…]} and
+    {"k":"icode","lines":[…]} -/
+def blk2Of (j : Json) : Except String MdRound.Blk2 := do
+  let k ← j.getObjValAs? String "k"
+  match k with
+  | "fence" => do
+    pure (.fence (← Driver.getStr j "delim") (← Driver.getStr j "info") (← (← Driver.getArr j "body").toList.mapM Driver.asStr))
+  | "icode" => do pure (.icode (← (← Driver.getArr j "lines").toList.mapM Driver.asStr))
+  | _ => do pure (.blk (← blkOf j))
+
+/-- op "c09.fragment2": {"blocks": [block, …] (non-empty), "depth": k} → the hypotheses of `C09_code_blocks_roundtrip_partial`
+    (`Blk2.ok` of every block, `adjOk`, tab-free lines when k > 0) and the text the theorem speaks about -/
+def c09Fragment2 (j : Json) : Except String Json := do
+  let bs ← (← Driver.getArr j "blocks").toList.mapM blk2Of
+  let k := (j.getObjValAs? Nat "depth").toOption.getD 0
+  match bs with
+  | [] => throw "blocks: empty"
+  | it :: rest =>
+    let lines := MdRound.itemsLines2 it rest
+    let ok := it.ok && rest.all (·.ok) && MdRound.adjOk it rest && (k == 0 || lines.all (fun l => !l.contains '\t'))
+    pure (Json.mkObj [("ok", Json.bool ok), ("text", Driver.str (MdRound.qStrs k lines).flatten)])
+
 def dispatch (op : String) (j : Json) : Except String Json :=
   match op with
   | "c14.hyps" => c14Hyps j
   | "c03.fragment" => c03Fragment j
   | "c09.fragment" => c09Fragment j
+  | "c09.fragment2" => c09Fragment2 j
   | "c19.outline" => c19Outline j
   | "c10.reflow" => c10Reflow j
   | "c06.spec" => c06Spec j
